@@ -556,3 +556,15 @@ M("glue10-name-memo", "C17", GL, "        for module_name in module_names:\n    
 
 # ---------------------------------------------------------------- ENG-5 / normaliser
 M("eng5-yield-before-elaborate", "C16", EX, "            replacement = PRUNE\n\n        yield frame\n", "            replacement = PRUNE\n", ["ENG-5"], accept_analysis_error=True, extra=[("        # Elaborate the frame, see if we should redirect our attention\n", "        yield frame\n        # Elaborate the frame, see if we should redirect our attention\n")])
+
+# ---------------------------------------------------------------- NAME-1 / JOIN-1 loop form
+M("name1-exit-by-name", "C01", LL, "    ret = [\n        replace(\n            with_block_info[block.handler],\n            obj=frame_details.stack[block.level - 1].__self__,  # type: ignore\n        )\n        for block in with_blocks\n    ]\n",
+  "    ret = []\n    for block in with_blocks:\n        meth = frame_details.stack[block.level - 1]\n        if meth.__name__ not in (\"__exit__\", \"__aexit__\"):\n            raise RuntimeError(\"not an exit method\")\n        ret.append(replace(with_block_info[block.handler], obj=meth.__self__))\n", "NAME-1")
+T("join1-twin-loop-form", "C01", LL, "    ret = [\n        replace(\n            with_block_info[block.handler],\n            obj=frame_details.stack[block.level - 1].__self__,  # type: ignore\n        )\n        for block in with_blocks\n    ]\n",
+  "    ret = []\n    for block in with_blocks:\n        meth = frame_details.stack[block.level - 1]\n        ret.append(replace(with_block_info[block.handler], obj=meth.__self__))\n")
+M("join1-loop-wrong-slot", "C01", LL, "    ret = [\n        replace(\n            with_block_info[block.handler],\n            obj=frame_details.stack[block.level - 1].__self__,  # type: ignore\n        )\n        for block in with_blocks\n    ]\n",
+  "    ret = []\n    for block in with_blocks:\n        meth = frame_details.stack[block.level]\n        ret.append(replace(with_block_info[block.handler], obj=meth.__self__))\n", "JOIN-1")
+
+# ---------------------------------------------------------------- MODE-4
+M("mode4-provisional-false", "C02", LL, "        _can_use_trickery = sys.implementation.name == \"cpython\" or (", "        _can_use_trickery = False\n        _supported = sys.implementation.name == \"cpython\" or (", ["MODE-4"], accept_analysis_error=True,
+  extra=[("        if _can_use_trickery:\n            from contextlib import contextmanager", "        if _supported:\n            from contextlib import contextmanager"), ("                traceback.print_exc()\n                _can_use_trickery = False\n", "                traceback.print_exc()\n            else:\n                _can_use_trickery = True\n")])
